@@ -116,4 +116,19 @@ def replay(rec):
     i = rec["input"]
     if "order" in i:
         return oracle_case(util, i["r"], i["s"], i["order"]) is not None
-    return True
+    if "curve" in i and "d" in i:
+        # verification equivalence record: (r, s) and its canonical form must verify alike
+        import hashlib
+        from ecdsa import SigningKey, curves, util as u
+        from ecdsa.keys import BadSignatureError
+        cv = [c for c in curves.curves if c.name == i["curve"]][0]
+        vk = SigningKey.from_secret_exponent(i["d"], cv, hashlib.sha256).verifying_key
+        dg = bytes.fromhex(i["digest"])
+
+        def ver(sig):
+            try:
+                return vk.verify_digest(sig, dg, sigdecode=u.sigdecode_string, allow_truncate=True)
+            except BadSignatureError:
+                return False
+        return ver(u.sigencode_string(i["r"], i["s"], cv.order)) != ver(u.sigencode_string_canonize(i["r"], i["s"], cv.order))
+    return None   # not a record this property can re-run
